@@ -29,7 +29,7 @@ from lib import impl
 from lib.core import cN, cbool, cbytes, clist, copt, cpair, vL, vN
 
 PROPERTY = "C09"
-GEN = ["types", "idiff", "idxcompare"]
+GEN = ["types", "idiff", "idxcompare", "idxapply"]
 RULE = (
     "names a/b/c at depth 1-3 so that prior and target collide; the prior workspace is either "
     "independent or derived from the target by file<->directory replacements at depth 1-3, nested "
